@@ -63,6 +63,7 @@ pub(crate) fn pipe_lwm(capacity: usize, drain_delta: usize) -> usize {
 /// so it adds no log throughput until something is actually wrong.
 #[inline]
 fn audit_slot<T: Send + 'static>(slot: &PipeSlot<T>, site: &str) {
+  #[cfg(rzmq_verif)] if !site.ends_with("pop") { crate::verif::reqrep::mark("rpq_pushed"); }
   #[cfg(feature = "diagnostics")]
   {
     let rxlen = slot.rx.len();
